@@ -188,3 +188,39 @@ def run_quietly(thunk):
         thunk()
     except Exception:
         pass
+
+
+class jumping_clocks:
+    """While active, every clock of the time module jumps forward by an hour on each reading
+    (and sleep() returns at once): code whose *results* depend on how much wall-clock time passes
+    between two calls shows it immediately.  Only for code that must not depend on time at all
+    (codecs, parsers, merges) - never around sockets or real threads."""
+    NAMES = ('time', 'monotonic', 'perf_counter', 'process_time')
+
+    def __enter__(self):
+        import time
+        self.time = time
+        self.saved = {n: getattr(time, n) for n in self.NAMES + ('sleep', 'time_ns', 'monotonic_ns', 'perf_counter_ns')}
+        self.offset = 0.0
+
+        def make(real, scale=1.0):
+            def clock():
+                self.offset += 3600.0
+                return real() + self.offset * scale
+            return clock
+        for n in self.NAMES:
+            setattr(time, n, make(self.saved[n]))
+        for n in ('time_ns', 'monotonic_ns', 'perf_counter_ns'):
+            real = self.saved[n]
+            setattr(time, n, (lambda real: (lambda: real() + int(self._bump() * 1e9)))(real))
+        time.sleep = lambda d=0: None
+        return self
+
+    def _bump(self):
+        self.offset += 3600.0
+        return self.offset
+
+    def __exit__(self, *exc):
+        for n, f in self.saved.items():
+            setattr(self.time, n, f)
+        return False
